@@ -1,10 +1,55 @@
 /-
-C07 — property theorems (only). Model: `HydroVerif/Model/C07.lean`; helper lemmas:
-`Lemmas/C07Grid.lean` (integers), `Lemmas/C07Coord.lean` (ordered field with floor).
+C07 — property theorems (only).
+Models: `Model/C07.lean` (integer grid core; coordinates, cast-first `coord2cell` imported by C05/C13/C16) and
+`Model/C07Kernel.lean` (`c_coord2cell` as written since /repo c8d188e: extent test on the floored doubles, then
+the casts; request-level wrappers). Lemmas: `Lemmas/C07Grid.lean`, `Lemmas/C07Coord.lean`, `Lemmas/C07Kernel.lean`.
 
-All theorems hold for every grid size (`nrows`, `ncols` arbitrary integers with the stated sign
-hypotheses), every cell number, every point, over any ordered field with a floor function
-(`ℚ`, `ℝ`): exact arithmetic. IEEE rounding is covered by the correspondence, not by these theorems.
+All theorems hold for every grid size (`nrows`, `ncols` arbitrary integers with the stated sign hypotheses), every
+cell number (any integer), every point, over any ordered field with a floor function (`ℚ`, `ℝ`): exact arithmetic.
+Standing hypotheses, both inside the property's quantifier ("nrows, ncols >= 1, cell size over eight orders of
+magnitude"): `0 < g.csz`, `0 < g.ncols` (`0 < nrows` follows from the existence of a valid cell).
+
+CLAUSE -> THEOREMS -> WHAT REMAINS OUTSIDE
+ 1. "cells are numbered row by row from the top-left corner"
+      cell2rowcol_valid, cell2rowcol_cellOf, cell2rowcol_injective (bijection valid cells <-> in-range (row, col),
+      cell = row*ncols + col), cell2rowcol_zero, cell2rowcol_succ (row by row), cell2coord_top_left_order (row 0 is
+      the top row, column 0 the left column).                                              outside: nothing.
+ 2. "cell2coord returns the centre of the cell"
+      cell2coord_eq, cell2coord_centre (midpoint of the footprint), cell2coord_inFootprint.
+      outside: the IEEE evaluation of xll+csz*(col+0.5) (3 roundings; compared bit for bit with the Float instance and
+      within 4 ulp-scaled units with the exact instance).
+ 3. "coord2cell returns c for every point inside the footprint of cell c"
+      coord2cellK_inside, coord2cellK_eq_iff, coord2cellK_lims (kernel as written); coord2cell_inside, coord2cell_eq_iff,
+      coord2cell_extent (cast-first form); coord2cellK_eq_coord2cell (the two forms agree everywhere);
+      cellOfQuot_inside_of_approx (the clause survives any evaluation error of the quotients up to the margin by which
+      the point is inside: the quantifier's "away from edges by 1e-9 relative").
+      outside: that the double evaluation of (x-xll)/csz is within 1e-9 cell sizes of the exact quotient — measured by
+      the harness on every constrained point (max observed error is in the evidence), not proved.
+ 4. "and -1 for every point outside the grid extent" (4 sides and diagonals, just outside to far away)
+      coord2cellK_outside, coord2cellK_lims (= -1 exactly off xlim x ylim), coord2cell_outside,
+      coord2cell_eq_neg_one_iff, cellOfQuot_outside_of_approx.          outside: as 3; NaN/inf points (not in the
+      quantifier; the Float instance of the kernel-as-written model sends them to -1 like the code, compared).
+ 5. "so that coord2cell(cell2coord(c)) = c for every valid cell"
+      coord2cellK_cell2coord, coord2cell_cell2coord, coord2cell_axes.        outside: rounding of the centre (as 2).
+ 6. "cell2rowcol and neighbours agree with that numbering (symmetric, positions mirror, off-grid neighbours -1)"
+      neighbours_spec (entry k = cell at (row+k/3-1, col+k%3-1) or -1; 9 entries; each non-flag entry valid and with
+      that (row, col)), neighbours_symmetric (mirror 8-k), neighbours_not_self.            outside: nothing.
+ 7. "invalid cell numbers are flagged (-1, NaN or an error) rather than mapped to a cell"
+      invalid_cell_flagged (every integer outside 0..nrows*ncols-1), valid_cell_not_flagged (only those),
+      coord2cellK_valid_or_flag / coord2cell_valid_or_flag (coord2cell never invents a cell number).
+      outside: numpy's conversion of Python integers that do not fit int64 (refused or wrapped to a negative number;
+      observed flagged-or-error by the oracle, not modelled).
+ 8. observables `Grid.xvalues`, `Grid.yvalues` (and xlim / ylim)
+      xvalues_eq, yvalues_eq, coord2cell_axes, coord2cellK_lims.                          outside: rounding (as 2).
+ 9. vectorised entry points (glue: atleast_1d / atleast_2d, one kernel entry per requested element)
+      grid_requests_elementwise (entry i is answered on its own, whatever the length / order / other entries).
+      outside: numpy dtype conversion of the request; shape validation of malformed requests (C05).
+10. the finding fixed in a909179 (truncation toward zero), kept as theorems about the pinned kernel
+      coord2cellTrunc_eq_of_ge, coord2cellTrunc_left_strip, coord2cellTrunc_bottom_strip.
+11. the exact instances the driver executes are the ones of the theorems: truncRat_eq_fieldTrunc, floorRat_eq_fieldFloor.
+State histories (re-assigned geometry attributes, clones, pickles, edited arrays) are not a theorem matter: the model
+is a pure function of the geometry the grid has at the time of the call; that the code reads that geometry, and owns
+no state between calls, is checked by the history streams of harness/c07.py.
 -/
 import HydroVerif.Lemmas.C07Coord
 import HydroVerif.Lemmas.C07Kernel
@@ -589,6 +634,15 @@ example : coord2cell exGeom (-29 / 10) (101 / 10) = 4 ∧ coord2cell exGeom (-15
     rw [h1, h2]
     norm_num [exGeom]
   · norm_num [exGeom]
+
+/-- hypotheses of `cell2rowcol_succ` across the end of a row, and of `neighbours_symmetric`, on the 2 x 3 grid -/
+example : validCell 2 3 2 = true ∧ validCell 2 3 (2 + 1) = true ∧ cell2rowcol 2 3 (2 + 1) = (1, 0) := by decide
+example : ∃ l, cNeighbours 2 3 4 = .ok l ∧ l[1]? = some 1 ∧ (1 : Int) ≠ -1 ∧
+    ∃ l', cNeighbours 2 3 1 = .ok l' ∧ l'[8 - 1]? = some 4 :=
+  ⟨_, rfl, by decide, by decide, neighbours_symmetric (by decide) (by decide) rfl (by decide) (by decide) (by decide)⟩
+/-- invalid numbers on both sides -/
+example : cell2rowcol exGeom.nrows exGeom.ncols 6 = (-1, -1) ∧ cell2rowcol exGeom.nrows exGeom.ncols (-1) = (-1, -1) :=
+  ⟨(invalid_cell_flagged (g := exGeom) (Or.inr (by decide))).1, (invalid_cell_flagged (g := exGeom) (Or.inl (by decide))).1⟩
 
 /-- the robust theorems with `δ = 1/1000`: quotients off by 1/2000, point 1/5 of a cell inside cell 4;
 and a point 1/4 of a cell left of the extent -/
